@@ -82,6 +82,10 @@ package fatigue
 //@ pred fatigueActs(b model.Bias, out *model.DecisionMakingParams, in *model.DecisionMakingParams) = out.Criteria == in.Criteria && out.MethodParameters == in.MethodParameters && len(out.ConsideredAlternatives) == len(in.ConsideredAlternatives)
 //@ func (*Fatigue).Apply
 //@   refines model.Bias.Apply with actsOn=fatigueActs
+//@   fnparam .valueGeneratorSource pure
+//@   fnparam .signGeneratorSource pure
+//@   returnhint [function_named_in_the_request_seed_of_the_request] fatName(fun) == parsedProps.Function
+//@             && valueGenerator == appfn(f.valueGeneratorSource, parsedProps.RandomSeed) && signGenerator == appfn(f.signGeneratorSource, parsedProps.RandomSeed)
 //@   property C17 C09 C07 C01
 //@   requires forall i int, j int :: 0 <= i && i < j && j < len(current.Criteria) ==> current.Criteria[i].Id != current.Criteria[j].Id
 //@   ensures [untouched] result.DMP.Criteria == current.Criteria && result.DMP.MethodParameters == current.MethodParameters
@@ -98,8 +102,13 @@ package fatigue
 
 // parseFatigueFuncParams decodes into the object BlankParams() returned (an interface value whose dynamic type is not
 // known statically): assumed to write only that fresh object.
+// fatMadeBy(x, f): x is a parameter object handed out by function f (a relation: every call hands out a new object)
+//@ spec fatMadeBy(x FatigueFunctionParams, f FatigueFunction) bool
+//@ ifacemethod FatigueFunction.BlankParams
+//@   ensures fatMadeBy(result, self)
 //@ func parseFatigueFuncParams
-//@   trusted
+//@   property C17 C09 C07
+//@   ensures [the_functions_own_parameter_object] fatMadeBy(result, fun)
 
 // ---- no state shared between requests (C09): every request decodes its function parameters into a new object
 //@ func (*ConstFatigueFunction).BlankParams
@@ -131,3 +140,30 @@ package fatigue
 //@ wire FatigueParams
 //@   property C01 C07 C09 C17 C20
 //@   json Function=function Params=params RandomSeed=randomSeed
+
+// ---- registered names (what a request must say to select this object; what error messages list)
+//@ func (*ConstFatigueFunction).Name
+//@   property C17 C20
+//@   nopanic
+//@   ensures [name] result == "const"
+
+// ---- registered names (what a request must say to select this object; what error messages list)
+//@ func (*Fatigue).Identifier
+//@   property C07 C09 C17 C20
+//@   nopanic
+//@   ensures [name] result == "fatigue"
+
+// ---- the request's fatigue function and seed (C17, C20): decoded as given, the function looked up by name
+//@ spec fatName(f FatigueFunction) string
+//@ ifacemethod FatigueFunction.Name
+//@   ensures result == fatName(self)
+//@ func parseProps
+//@   property C17 C20 C07 C09
+//@   ensures [as_requested] fresh(result) && result.Function == (decoded_has(*props, "Function") ? decoded_str(*props, "Function") : "")
+//@             && result.RandomSeed == (decoded_has(*props, "RandomSeed") ? decoded_int(*props, "RandomSeed") : 0)
+//@ func (*Fatigue).getFatigueFunction
+//@   property C17 C20 C07 C09
+//@   panics_iff [unknown_function] !(exists k int :: 0 <= k && k < len(f.functions) && fatName(f.functions[k]) == params.Function)
+//@   ensures [first_with_that_name] exists k int :: 0 <= k && k < len(f.functions) && result == f.functions[k] && fatName(result) == params.Function
+//@             && forall j int :: 0 <= j && j < k ==> fatName(f.functions[j]) != params.Function
+//@   loop 1 invariant [none_so_far] forall j int :: 0 <= j && j < iter ==> fatName(f.functions[j]) != params.Function
